@@ -138,6 +138,10 @@ def run(ctx):
         runs.append(["mtmix", [1, 2, 4, 16][r % 4], ctx.seed * 100 + r, 400, r % 3, (r // 3) % 2])
     ctx.rules.append("fnode-mtmix (oracle only): a function_node broadcasts to a queueing serial, an unlimited and a REJECTING successor (rejecting serial function_node or a full limiter_node) connected "
                      "first / in the middle / last: the queueing and unlimited successors receive every output exactly once whatever the rejecting one does")
+    for r in range(ctx.scale(8, 100)):
+        runs.append(["zoo", [1, 2, 4, 8][r % 4], ctx.seed * 100 + r, [1, 10, 100, 400][(r // 4) % 4]])
+    ctx.rules.append("fnode-zoo (oracle only): input_node -> limited function_node -> multifunction_node routing even/odd; continue_node with 1-4 predecessors; async_node with reserve_wait / gateway "
+                     "results from foreign threads; an exception in a body: every produced value once on the right port, one firing per complete set of signals, wait_for_all not before release_wait, nothing starts after the throw")
     for r in range(ctx.scale(12, 150)):
         runs.append(["mtpull", [2, 4, 4, 8][r % 4], ctx.seed * 100 + r, 1500, 1 + (r // 4) % 2])
     ctx.rules.append("fnode-mtpull (oracle only): queue_node -> REJECTING function_node of concurrency 1/2; after a preparation in which the node's forwarder ran while the node was full, 1500 rounds put "
@@ -149,7 +153,7 @@ def run(ctx):
         t = (lines2 or ["no output"])[-1].split()
         if rc != 0 or len(t) < 6 or any(x != "0" for x in t[1::2]):
             bad += 1
-            what = ("function_node(limit %d) -> %d successors" % (args[4], args[5])) if args[0] == "mt" else ("queue_node -> rejecting function_node(concurrency %d), %d rounds" % (args[4], args[3])) if args[0] == "mtpull" else (
+            what = ("function_node(limit %d) -> %d successors" % (args[4], args[5])) if args[0] == "mt" else ("queue_node -> rejecting function_node(concurrency %d), %d rounds" % (args[4], args[3])) if args[0] == "mtpull" else ("input / multifunction / continue / async nodes and an exception, %d items" % args[3]) if args[0] == "zoo" else (
                 "function_node broadcasting to [queueing, unlimited] plus a %s connected %s" % (["rejecting serial function_node", "full limiter_node"][args[5]], ["first", "in the middle", "last"][args[4]]))
             ctx.add(Finding("violation", "fnode-" + args[0], "%s, %d worker threads, seed %d: %s rc=%s" % (what, args[1], args[2], " ".join(t), rc), {"tie": "fnode-mt", "args": args}))
             if bad >= 3:
